@@ -225,7 +225,7 @@ func c08Server() *explore.Scenario {
 		Name: "C08/server-header/keys-and-values", Family: fam, Prop: "C08", Bound: 0, Horizon: time.Millisecond,
 		Run: func() {
 			keys := []string{"grpc-timeout", "GRPC-Timeout", "Grpc-Timeout", "gRPC-tImeOUT"}
-			vals := []string{"1n", "7u", "250m", "3S", "2M", "1H", "00000005S", "99999999H", "99999999n", "2562048H", "153722867M",
+			vals := []string{"0S", "0m", "00000000n", "0H", "00u", "1n", "7u", "250m", "3S", "2M", "1H", "00000005S", "99999999H", "99999999n", "2562048H", "153722867M",
 				"", "S", "12", "-5S", "+5S", " 5S", "5 S", "5s", "5h", "1e3S", "0x1S", "123456789S"}
 			w := env.NewWorld()
 			d := env.NewDirect(w, env.DirectOpts{Pipe: env.PipeOpts{Cap: 64}, NoClient: true})
